@@ -97,6 +97,7 @@ func watchdog() {
 	last := h.Progress.Load()
 	idle := 0
 	napIdle, napLast := 0, int64(-1)
+	slowK, slowSecs := -1, 0
 	for tick := 0; ; tick++ {
 		time.Sleep(100 * time.Millisecond)
 		// a "nap" (virtual time passing while a user-code call is held) that makes no progress
@@ -131,15 +132,30 @@ func watchdog() {
 		spec, k := current.spec, current.k
 		sp := current.startProgress
 		current.Unlock()
-		if busy && cur-sp > int64(envInt("VERIF_MAX_EVENTS", 250000)) {
+		// how long (real time) has this scenario been running? Scenarios take well under a
+		// second; one that is still producing events after many seconds is looked at: a deep
+		// stack makes every recorded event slower (the goroutine id comes from a stack
+		// capture), so a runaway recursion may never reach the event limit.
+		if !busy || k != slowK {
+			slowK, slowSecs = k, 0
+		} else {
+			slowSecs++
+		}
+		slow := busy && slowSecs >= envInt("VERIF_SLOW_S", 10) && cur != last
+		if busy && (slow || cur-sp > int64(envInt("VERIF_MAX_EVENTS", 250000))) {
 			// runaway: events are produced without bound (e.g. unbounded recursion / spin at zero latency)
 			d := fullDump()
 			lib, rep := h.CensusOf(d)
 			res := &h.Result{Name: spec.Name, Class: spec.Class, Seed: spec.Seed, Obs: map[string]int{}, FP: map[string]string{}}
-			if rep > 50 {
+			// (the runtime prints at most 100 frames of a stack and elides the middle: two
+			// functions calling each other show up about 50 times each)
+			if rep > 50 || (rep >= 20 && strings.Contains(d, "frames elided...")) {
 				res.Viol = append(res.Viol, h.Violation{Prop: stallProp(spec), Clause: "recursion", Sig: "unbounded-recursion:runaway",
 					Detail: fmt.Sprintf("a goroutine's stack holds the same library function %d times; %v", rep, lib)})
 			} else {
+				if slow && cur-sp <= int64(envInt("VERIF_MAX_EVENTS", 250000)) && slowSecs < envInt("VERIF_SLOW_MAX_S", 120) {
+					continue // just a slow scenario (loaded machine): keep going, look again later
+				}
 				res.Inconclusive = "runaway event production without deep recursion"
 			}
 			p := filepath.Join(replayDir(), spec.Name+".json")
